@@ -424,3 +424,149 @@ async fn golden_ticket_transaction_never_spends_what_a_pooled_transaction_spends
          (Block::create finds the double spend), and so will every attempt while block 1 is the tip, with {} \
          transaction waiting in the pool", spenders, bundled.is_some(), mempool.transactions.len())); }
 }
+
+/// C14: bundling yields a valid block or leaves the pool unchanged, also when a peer's staking transaction is pooled next to the one the node adds itself
+#[allow(dead_code)]
+/// what the node does with a transaction a peer sends, up to the block it bundles from its pool:
+/// VerificationThread::verify_tx, ConsensusThread::bundle_block (add_transaction_if_validates,
+/// Mempool::bundle_block, Blockchain::add_block). returns the verdict on the bundled block, the number of
+/// staking transactions the block carried and the number of transactions pooled afterwards.
+async fn audit_demo_receive_transaction_and_bundle(
+    t: &mut TestManager,
+    mut peer_tx: Transaction,
+    timestamp: Timestamp,
+) -> (crate::core::consensus::blockchain::AddBlockResult, usize, usize) {
+    let config_lock = t.config_lock.clone();
+    let blockchain_lock = t.blockchain_lock.clone();
+    let mempool_lock = t.mempool_lock.clone();
+    let block;
+    {
+        let configs = config_lock.read().await;
+        let blockchain = blockchain_lock.read().await;
+        let mut mempool = mempool_lock.write().await;
+        let public_key = t.wallet_lock.read().await.public_key;
+
+        peer_tx.generate(&public_key, 0, 0);
+        assert!(
+            !peer_tx.is_block_generated_type()
+                && peer_tx.validate(&blockchain.utxoset, &blockchain, true),
+            "setup: the verification thread passes the peer's transaction on"
+        );
+        mempool
+            .add_transaction_if_validates(peer_tx.clone(), &blockchain)
+            .await;
+        assert!(
+            mempool.transactions.contains_key(&peer_tx.signature),
+            "setup: the peer's transaction is pooled"
+        );
+        block = mempool
+            .bundle_block(&blockchain, timestamp, None, std::ops::Deref::deref(&configs), &t.storage)
+            .await;
+    }
+    let block = block.expect("setup: a block is bundled");
+    let staking_transactions = block
+        .transactions
+        .iter()
+        .filter(|tx| tx.is_staking_transaction())
+        .count();
+    let result = t.add_block(block).await;
+    let pooled = mempool_lock.read().await.transactions.len();
+    (result, staking_transactions, pooled)
+}
+
+#[tokio::test]
+#[serial_test::serial]
+async fn pooled_staking_transaction_of_a_peer_does_not_spoil_the_bundled_block() {
+    #[allow(unused_imports)] use std::ops::Deref;
+    #[allow(unused_imports)] use crate::core::util::test::test_manager::test::TestManager;
+    #[allow(unused_imports)] use crate::core::consensus::transaction::Transaction;
+    #[allow(unused_imports)] use crate::core::consensus::transaction::TransactionType;
+    #[allow(unused_imports)] use crate::core::consensus::block::Block;
+    #[allow(unused_imports)] use crate::core::consensus::blockchain::Blockchain;
+    use crate::core::consensus::blockchain::AddBlockResult;
+    use crate::core::consensus::slip::{Slip, SlipType};
+    use crate::core::defs::NOLAN_PER_SAITO;
+    use crate::core::util::crypto::generate_keys;
+
+    // block 1 issues two outputs of 10 SAITO to a peer's key and 1000 SAITO to the node; every later block has to
+    // carry exactly one staking transaction of at least 2 SAITO
+    let (peer_public_key, peer_private_key) = generate_keys();
+    let mut t = TestManager::default();
+    let mut issued = Slip::default();
+    issued.public_key = peer_public_key;
+    issued.amount = 10 * NOLAN_PER_SAITO;
+    t.initialize_from_slips_and_value(vec![issued.clone(), issued], 1000 * NOLAN_PER_SAITO)
+        .await;
+    t.enable_staking(2 * NOLAN_PER_SAITO).await;
+    let ts = t.get_latest_block().await.timestamp;
+
+    let outputs: Vec<Slip> = {
+        let blockchain = t.blockchain_lock.read().await;
+        blockchain
+            .utxoset
+            .iter()
+            .filter_map(|(key, spendable)| {
+                let slip = Slip::parse_slip_from_utxokey(key).ok()?;
+                (*spendable && slip.public_key == peer_public_key && slip.amount > 0)
+                    .then_some(slip)
+            })
+            .collect()
+    };
+    assert_eq!(outputs.len(), 2);
+
+    // control: the peer sends a payment. the node bundles it with its own staking transaction: block 2 is added
+    let mut payment = Transaction::default();
+    payment.timestamp = ts + 1;
+    payment.add_from_slip(outputs[0].clone());
+    payment.add_to_slip(Slip {
+        public_key: peer_public_key,
+        amount: outputs[0].amount,
+        ..Default::default()
+    });
+    payment.sign(&peer_private_key);
+    let (result, staking_transactions, pooled) =
+        audit_demo_receive_transaction_and_bundle(&mut t, payment, ts + 120_000).await;
+    assert_eq!(staking_transactions, 1);
+    assert!(
+        matches!(result, AddBlockResult::BlockAddedSuccessfully(_, true, _)),
+        "control: the block bundled from a peer's payment and the node's staking transaction is added"
+    );
+    assert_eq!(pooled, 0);
+    assert_eq!(t.get_latest_block().await.id, 2);
+
+    // the peer sends a staking transaction of its own: 10 SAITO in, 2 SAITO staked, 8 SAITO change
+    let mut staking = Transaction::default();
+    staking.transaction_type = TransactionType::BlockStake;
+    staking.timestamp = ts + 2;
+    staking.add_from_slip(outputs[1].clone());
+    staking.add_to_slip(Slip {
+        public_key: peer_public_key,
+        amount: 2 * NOLAN_PER_SAITO,
+        slip_type: SlipType::BlockStake,
+        ..Default::default()
+    });
+    staking.add_to_slip(Slip {
+        public_key: peer_public_key,
+        amount: 8 * NOLAN_PER_SAITO,
+        ..Default::default()
+    });
+    staking.sign(&peer_private_key);
+
+    let (result, staking_transactions, pooled) =
+        audit_demo_receive_transaction_and_bundle(&mut t, staking.clone(), ts + 240_000).await;
+
+    // the peer's transaction has left the pool without being confirmed: it can be sent again as it is
+    let accepted_again = {
+        let blockchain = t.blockchain_lock.read().await;
+        let mut mempool = t.mempool_lock.write().await;
+        mempool
+            .add_transaction_if_validates(staking.clone(), &blockchain)
+            .await;
+        mempool.transactions.contains_key(&staking.signature)
+    };
+
+    if !(matches!(result, AddBlockResult::BlockAddedSuccessfully(_, _, _))) { witness(format!("the node bundled block 3 from a pool that held a peer's staking transaction (2 SAITO staked) and added its own: \
+         the block carries {} staking transactions where Block::validate demands exactly one, so bundling yielded a \
+         block that Blockchain::add_block refuses ({:?}) instead of a valid block; {} transactions are pooled afterwards \
+         (neither staking transaction came back), and the peer's unconfirmed transaction is accepted again as it is: {}", staking_transactions, result, pooled, accepted_again)); }
+}
